@@ -119,7 +119,10 @@ func rfcMerge(b parts, ref string) string {
 	return b.path[:strings.LastIndexByte(b.path, '/')+1] + ref
 }
 
-func rfcResolve(base, ref string) string {
+func rfcResolve(base, ref string) string { return rfcRecompose(rfcResolveParts(base, ref)) }
+
+// rfcResolveParts: the target components of 5.2.2 before recomposition.
+func rfcResolveParts(base, ref string) parts {
 	b, r := rfcSplit(base), rfcSplit(ref)
 	var t parts
 	switch {
@@ -146,5 +149,5 @@ func rfcResolve(base, ref string) string {
 		}
 		t.fragment, t.hasFragment = r.fragment, r.hasFragment
 	}
-	return rfcRecompose(t)
+	return t
 }
